@@ -16,7 +16,14 @@ Inductive skind := KFunction | KLambda | KComp | KClass.
 Inductive bkind :=
 | BPlain                                  (* assignment, def, class, for/with/except target, argument, del, ... *)
 | BImport (key : string)                  (* `import a.b as x` (key "a.b")  /  `import a.b` binds `a` (key "a") *)
-| BFrom (key : string) (name : string).   (* `from key import name [as x]` *)
+| BFrom (key : string) (name : string)    (* `from key import name [as x]` *)
+(* added by the coverage audit *)
+| BAttr (b : bkind) (a : string)          (* module-level `x = r.a1...an` with r bound by an import: the attribute
+                                             a of the value denoted by b (x = r itself is emitted with r's kind) *)
+| BInert (why : string)                   (* a binding statement that does NOT take effect when the module is
+                                             imported: inside `if __name__ == '__main__':`, or the name of a
+                                             module-level `except ... as e` (deleted when the clause ends) *)
+| BDel.                                   (* `del x`: a binding for the compiler, an UNbinding at run time *)
 
 Inductive item :=
 | Bind (x : string) (k : bkind) (line : Z)           (* x is bound in this scope *)
@@ -126,11 +133,17 @@ Inductive chain_ok (e : env) : string -> list string -> Prop :=
     mod_attr e key a = Some (Some key') -> chain_ok e key' rest -> chain_ok e key (a :: rest).
 
 (* the module object a binding denotes, if it is one *)
-Definition bkind_module (e : env) (b : bkind) : option string :=
+Fixpoint bkind_module (e : env) (b : bkind) : option string :=
   match b with
   | BPlain => None
   | BImport key => Some key
   | BFrom key name => match mod_attr e key name with Some (Some k') => Some k' | _ => None end
+  | BAttr b' a => match bkind_module e b' with
+                  | Some key => match mod_attr e key a with Some (Some k') => Some k' | _ => None end
+                  | None => None
+                  end
+  | BInert _ => None
+  | BDel => None
   end.
 
 (* the global x denotes the imported module `key`: it is bound, and every binding of it is an import of that module *)
@@ -172,3 +185,57 @@ Definition module_ok_except (allow : list (string * string)) (e : env) (m : modu
 
 Definition module_ok (e : env) (m : module) : Prop :=
   forall st it, occurs m st it -> item_ok e m st it.
+
+(* ==== STRICT reading (added by the coverage audit) =====================================================
+   The definitions above count a name as a module global as soon as SOME statement binds it.  The strict
+   reading below also asks that the binding can take effect when the module is imported in THIS environment:
+   - an `import` of a module that is not installed (no facts in the environment) binds nothing - the statement
+     raises, and if it is guarded by try/except the name simply stays unbound;
+   - `from m import n` binds nothing when m has no attribute n;
+   - bindings inside `if __name__ == '__main__':` and the name of a module-level `except ... as e` do not exist
+     after import (BInert);
+   - a name deleted by `del` at module level (or through `global`) is treated as unbound (BDel).
+   Conditional bindings whose condition cannot be decided statically (if/else on a run-time value, for/while
+   bodies and their else, try bodies other than imports) still count as bound: "possibly unbound" is outside the
+   claim; the live oracle of the harness judges them in the environment at hand.
+   Module-level code itself (scope []) ran to completion when the module was imported, so its own reads are
+   judged with the permissive reading; the claim is about functions, methods and class bodies. *)
+Fixpoint effective (e : env) (b : bkind) : bool :=
+  match b with
+  | BPlain => true
+  | BImport key => match assoc key (e_mods e) with Some _ => true | None => false end
+  | BFrom key name => match mod_attr e key name with Some _ => true | None => false end
+  | BAttr b' a => effective e b' &&
+                  match bkind_module e b' with
+                  | Some key => match mod_attr e key a with Some _ => true | None => false end
+                  | None => true      (* attribute of a non-module value: outside the claim *)
+                  end
+  | BInert _ => false
+  | BDel => false
+  end.
+
+Definition is_global_strict (e : env) (m : module) (x : string) : Prop :=
+  (exists b, global_binding m x b /\ effective e b = true) /\ ~ global_binding m x BDel.
+
+Definition Resolves_strict (e : env) (m : module) (st : list frame) (x : string) : Prop :=
+  exists r, classify st x r /\
+            (r = RGlobal -> (st = [] /\ is_global m x) \/ is_global_strict e m x \/ In x (e_builtins e)).
+
+(* the global x denotes the module `key`: every binding of it that can take effect is an import of that module *)
+Definition alias_strict (e : env) (m : module) (x key : string) : Prop :=
+  is_global_strict e m x /\
+  forall b, global_binding m x b -> effective e b = true -> bkind_module e b = Some key.
+
+Definition item_ok_strict (e : env) (m : module) (st : list frame) (it : item) : Prop :=
+  match it with
+  | Use x _ => Resolves_strict e m st x
+  | AttrUse x attrs _ =>
+      Resolves_strict e m st x /\
+      (forall key, classify st x RGlobal -> alias_strict e m x key -> chain_ok e key attrs)
+  | ImportFrom key name _ => mod_attr e key name <> None
+  | Gap _ => False
+  | _ => True
+  end.
+
+Definition module_ok_strict (allow : list (string * string)) (e : env) (m : module) : Prop :=
+  forall st it, occurs m st it -> ~ excepted allow st it -> item_ok_strict e m st it.
